@@ -282,6 +282,23 @@ CLAIMS['C17'] = (
     '(merging of adjacent -Wl fragments, pre-escaped ${pcfiledir}) are avoided and noted in DESIGN.md',
     'DESIGN.md §6 C17')
 
+CLAIMS['C18'] = (
+    'exploration',
+    'exhaustive enumeration of build scripts over the file-object builtins (with/without dist=False, root/submodule placement); real dist target + archive listing; audit-hooked configure and recorded build as the source of required members; re-configure of the unpacked archive',
+    'Programs are all single templates over 13 builtins that create file objects (sources, explicit headers, header '
+    'directories and directories with include patterns, find_files with extra / platform filter, extra_dist, man '
+    'pages, copy_file, build_step files in the command and in files=, extra_deps, prebuilt libraries) x {dist, '
+    'dist=False} x {root script, submodule, nested submodule}, plus mixed pairs (thorough: all pairs and all root '
+    'triples), each with an options.bfg, on both backends. The real dist-gzip target is run with the real doppel and '
+    'the archive listed: it must contain every srcdir file opened during configuration (sys.addaudithook), every '
+    'srcdir file any build step reads (recorder log of a full stub build incl. headers) and what the script declares '
+    '(find results incl. extra / not_now, extra_dist), must not contain files marked dist=False or anything outside '
+    'the project prefix; the archive is then unpacked in place of the source tree and configured again, and build file '
+    'and compile_commands.json must be equal up to ordering.',
+    'equivalence up to ordering (find_files keeps os.listdir order); recursion of extra_dist(dirs=) is undocumented and a '
+    'don\'t-care',
+    'DESIGN.md §6 C18')
+
 # --- more claims are appended above this line ---
 NOT_YET = 'check not built yet in this session (see DESIGN.md §10 build order); not claimed until it is'
 NOT_APPLICABLE = {}
